@@ -77,6 +77,31 @@ def check(ctx):
             if contains(key_t, lambda s_: s_.op in ("loopvar", "loopout") and s_ is not vals[0].args[0]):
                 violated = ("the key of a row depends on state carried over from earlier rows (a cache / accumulator): two different "
                             "value tuples can receive the same key")
+    # memo table:  cache[k] = key(row) if k not in cache; key = cache[k]   - sound only if k itself identifies the tuple
+    if violated is None and key_t is not None and row is not None and key_t.op == "sub":
+        kk = key_t.args[1]
+        ups = [x for x in subterms(key_t.args[0]) if x.op == "upd" and x.args[1] is kk]
+        if ups:
+            plain = kk.op == "call" and kk.args[0].op == "attr" and kk.args[0].args[1] == "join" and len(kk.args[1]) == 1 and kk.args[1][0] is row
+            identity = kk is row or (kk.op == "call" and kk.args[0].op == "global" and kk.args[0].args[0] in ("builtins.tuple",) and kk.args[1][0] is row)
+            if identity:
+                key_t = ups[0].args[2]
+            else:
+                violated = ("merged names are looked up in a cache keyed by " + ("the un-escaped join of the row" if plain else
+                            show(kk, maxdepth=3)[:60]) + ": two different value tuples with the same cache key share one merged name")
+    # a fixed-width string array silently truncates long merged names
+    if violated is None and core is not None and core.op == "call" and core.args[0].op == "global" \
+            and core.args[0].args[0] in ("numpy.array", "numpy.asarray", "numpy.fromiter", "numpy.empty", "numpy.full"):
+        dt = dict(core.args[2]).get("dtype") if len(core.args) > 2 else None
+        if dt is None and core.args[0].args[0] == "numpy.fromiter" and len(core.args[1]) > 1:
+            dt = core.args[1][1]
+        if dt is not None and not (dt.op == "global" and dt.args[0] in ("builtins.object", "builtins.str", "numpy.object_", "numpy.str_")) \
+                and not (dt.op == "const" and const_value(dt) in ("object", "O", "str", "U")):
+            violated = ("the merged names are stored in an array of fixed-width strings (dtype=" + show(dt, maxdepth=3)[:40] + "): a name "
+                        "longer than the width (escaping adds characters) is cut, so distinct tuples collide and the key of a tuple "
+                        "depends on the other rows of the table")
+        elif core.args[0].args[0] == "numpy.fromiter" and core.args[1] and core.args[1][0].op == "comp" and inner_arr is None:
+            inner_arr = core.args[1][0]
     if violated is None and key_t is not None and row is not None:
         body = key_t
         if body.op == "call" and body.args[0].op == "attr" and body.args[0].args[1] == "join" and is_str_const(body.args[0].args[0]) \
